@@ -389,3 +389,25 @@ func (c *Conn) WaitClosed(limit time.Duration) bool {
 	c.WaitLimit = old
 	return ok
 }
+
+// AvailableUnread returns the number of scripted bytes that were available to the reader at once
+// (the current step's remainder and the following steps up to the first one that has a pause or
+// waits for writes) but were never read.
+func (c *Conn) AvailableUnread() int {
+	c.mu.Lock()
+	defer c.mu.Unlock()
+	n := 0
+	for i := c.ri; i < len(c.s.Reads); i++ {
+		st := c.s.Reads[i]
+		if i > c.ri || !c.paused {
+			if st.PauseMs > 0 || st.WaitWritten > 0 {
+				break
+			}
+		}
+		n += len(st.Data)
+		if i == c.ri {
+			n -= c.off
+		}
+	}
+	return n
+}
